@@ -99,7 +99,7 @@ def main(spec, argv):
         else:
             i += 1
     seed = int(os.environ.get('VERIF_SEED', '1'))
-    os.environ.setdefault('VERIF_MODEL_TIMEOUT', '25' if tier == 'quick' else '90')   # per-case limit of the extracted model / checker
+    os.environ.setdefault('VERIF_MODEL_TIMEOUT', '25' if tier == 'quick' else '40')   # per-case limit of the extracted model / checker
     prop = spec.prop
     t0 = time.time()
     workdir = os.path.join(core.RUN, prop)
